@@ -177,3 +177,15 @@ func VH_C06_reader_vacuity(w int) {
 	verif.Assume(err == nil && len(res) > 0)
 	verif.Assert(false, "vacuity")
 }
+
+// Exported access for harnesses of other packages (C05).
+type VHLog = vhLog
+
+func VHNewLog(marker uint64) *vhLog { return &vhLog{marker: marker} }
+
+// Append adds the next entry (index marker+len+1).
+func (l *vhLog) Append(typ raftpb.EntryType, cmd []byte) uint64 {
+	idx := l.last() + 1
+	l.ents = append(l.ents, raftpb.Entry{Term: 1, Index: idx, Type: typ, Cmd: cmd})
+	return idx
+}
